@@ -423,6 +423,81 @@ class World:
                 return
 
 
+SPECIAL = [1.5, float('nan'), float('nan'), 2.0, float('inf'), float('-inf'), 0.0, -0.0, 1.5, 1e308, 5e-324]
+
+
+def same_float(a, b):
+    return (a != a and b != b) or a == b
+
+
+def run_special_floats(w, r, rng, hist=None):
+    """values a float parameter may hold that do not compare like ordinary numbers (NaN is unequal to itself, the two zeros
+    are equal): single actor, exact model - after every operation the last message an activated connection holds for
+    the parameter carries the value in the cache (both NaN, or equal), whatever the omit settings are"""
+    import math
+    C, D = w.C, w.D
+    if hist is None:
+        hist = {'omit': rng.choice([0, 0.1, 10, None]), 'update_unchanged': rng.choice(['default', 'always', 'never', 0.5]),
+                'ops': [[rng.choice(['read', 'read', 'assign', 'sleep_short', 'sleep_long']), rng.randrange(len(SPECIAL))] for _ in range(rng.randint(4, 12))]}
+    case = {'kind': 'special-floats', 'hist': hist}
+    w.env.set_config(omit_unchanged_within=DEFAULT_OMIT)
+    kw = {} if hist['update_unchanged'] == 'default' else {'update_unchanged': hist['update_unchanged']}
+    hwv = [1.0]
+
+    class F(C.Readable):
+        f = C.Parameter('float', C.FloatRange(), readonly=False, default=1.0, **kw)
+        omit_unchanged_within = hist['omit']
+
+        def read_value(self):
+            return 0
+
+        def read_f(self):
+            return hwv[0]
+    node = w.nodes.Node({'m': {'cls': F, 'description': 'x'}}).build()
+    m = node.secnode.modules['m']
+    disp = node.dispatcher
+    problems = []
+
+    def root():
+        obs = w.nodes.Conn('obs')
+        disp.add_connection(obs)
+        disp.handle_request(obs, ('activate', None, None))
+        for i, (kind, vi) in enumerate(hist['ops']):
+            v = SPECIAL[vi]
+            if kind == 'sleep_short':
+                D.vsleep(0.01)
+                continue
+            if kind == 'sleep_long':
+                D.vsleep(20)
+                continue
+            if kind == 'read':
+                hwv[0] = v
+                m.read_f()
+            else:
+                m.f = v
+            r.count('special_float_operations')
+            if v != v:
+                r.count('special_float_nan_operations')
+            pobj = m.parameters['f']
+            seq = [x for x in obs.out if x[0] in ('update', 'error_update') and x[1] == 'm:_f']
+            if pobj.readerror or not seq or seq[-1][0] != 'update':
+                problems.append((i, 'unexpected-error', f'{kind} {v!r}: readerror {pobj.readerror!r}, last message {seq[-1:]!r}'))
+                return
+            if not same_float(seq[-1][2][0], pobj.value):
+                what = 'nan' if pobj.value != pobj.value or seq[-1][2][0] != seq[-1][2][0] else 'number'
+                problems.append((i, f'replay-differs-from-cache/special-float/{what}', f'after op {i} ({kind} {v!r}): last message {seq[-1][2][0]!r}, cache {pobj.value!r}'))
+                return
+    s = D.Sched(('seq',), 0, horizon=2000, max_steps=150000)
+    s.run(root, wall_timeout=60)
+    r.count('special_float_histories')
+    r.case(('special-floats', hist['omit'], str(hist['update_unchanged']), tuple(k for k, _ in hist['ops'])[:6]), True)
+    if s.status != 'ok' or s.escaped:
+        r.violation('C05/special-floats/run-' + (s.status if s.status != 'ok' else 'exception-escapes'), f'{s.escaped[:1]}'[:300], case)
+        return
+    if problems:
+        r.violation('C05/' + problems[0][1], problems[0][2], case)
+
+
 def run_shard(shard):
     r = rec.Recorder(shard)
     rng = random.Random(f'C05/{shard["seed"]}/{shard["idx"]}')
@@ -442,6 +517,8 @@ def run_shard(shard):
             w.run_history(rng, rng.choice([2, 3]), ('pct', rng.choice([2, 3, 4]), 400), seed)
         else:
             w.run_history(rng, 2, ('rw', 0.3), seed)
+    for i in range(max(10, n // 4)):
+        run_special_floats(w, r, rng)
     # bounded-preemption enumeration of one small scenario per shard
     import time
     t_end = time.time() + shard['pb_budget']
@@ -472,6 +549,10 @@ def run_shard(shard):
 def replay(case):
     r = rec.Recorder()
     w = World(r)
+    if case.get('kind') == 'special-floats':
+        run_special_floats(w, r, None, hist=case['hist'])
+        w.D.unwatch_all()
+        return r.result()
     st = case['strategy']
     strategy = ('prefix', [tuple(x) for x in st[1]]) if st[0] == 'prefix' else tuple(st)
     w.run_history(None, case['actors'], strategy, case['seed'], hist=case)
